@@ -3,6 +3,41 @@
 import json, sys
 
 CHECKS = {
+ "C10": dict(
+   text="Every row of the five Gaussian tables is observed through the real integrators: a stateful integrand steers the two-consecutive-agreement exit to the chosen row so that the public function returns Q_row[1 + eps*p]; with all 2n polynomial coefficients symbolic z3 (linear arithmetic over the exact affine form) proves degree-(2n-1) exactness against closed-form moments, that the weights sum to the zeroth moment, strict positivity of every weight (strict monotonicity in arbitrary integrand values), and the run records n distinct nodes inside the domain. The one-point rules are decided through the stopping rule with a symbolic tolerance. tanh-sinh: levels 0..2 against the double-exponential formula.",
+   note="Real arithmetic with the tables' exact doubles; moments from closed forms in f64 (1e-15); tolerance 1e-10 x (2n) on normalised monomials; tanh-sinh levels 3..6 are not observable through the public API and are outside the claim.",
+   tech="symbolic execution of the real integrators with a steering integrand + SMT (z3, QF_LRA) over all polynomial coefficients",
+   ref="6/C10"),
+ "C11": dict(
+   text="Symbolic execution of every operator impl and of multiply/dft/idft at a symbolic scalar: all owned/borrowed/assigning forms are proved coefficient-wise equal to exact coefficient algebra; products through the scalar, linear-factor and FFT paths are proved equal to the convolution (both operands symbolic up to 5x3, one symbolic x one seeded concrete operand up to transform size 32), with degree = sum of degrees on every feasible path, commutativity, agreement with pointwise products, dft = values at roots of unity and idft(dft) = id; real and complex coefficients.",
+   note="Real arithmetic (twiddle factors are the exact doubles); |leading| >= 0.1, coefficients in [-10,10]; transform sizes above 32/64 are outside (measured too slow).",
+   tech="symbolic execution at a term-building scalar + SMT (z3: nlsat for bilinear, simplex for linear queries)",
+   ref="6/C11"),
+ "C12": dict(
+   text="Symbolic execution of Polynomial::divide: for fully symbolic dividend and divisor (up to degree 6/3) and symbolic dividend x seeded concrete divisor (up to degree 12/8), on every feasible path (each elimination step forks on whether the leading remainder coefficient is negligible) z3 proves dividend = quotient*divisor + remainder coefficient-wise, deg remainder < deg divisor, the quotient degree, zero remainder for exact multiples, scaling by constant divisors and Err for the zero divisor; complex dividends with concrete complex divisors.",
+   note="Real arithmetic; |leading| >= 0.1; exact multiples restricted to quotients whose coefficients are all non-negligible (otherwise the zero tolerance legitimately leaves a remainder of size tol*|d|/|d_lead|).",
+   tech="symbolic execution at a term-building scalar + SMT (z3 nlsat / simplex), DFS over the negligible-coefficient branches",
+   ref="6/C12"),
+ "C13": dict(
+   text="Symbolic execution of evaluate, evaluate_derivative, derivative, antiderivative, integrate and coefficient access with all coefficients and points symbolic (degree 0..6, complex 1..3): z3 proves the calculus identities of the statement; every sequence of up to 2 (quick) / 3 (thorough) set/purge/purge_leading operations over a power alphabet is executed with symbolic values and symbolic zero tolerance and compared with a reference coefficient map (exactly the addressed power changes, no panic).",
+   note="Real arithmetic; small-scope exhaustive enumeration of operation sequences (the integer powers are concrete, the values symbolic).",
+   tech="symbolic execution at a term-building scalar + SMT (z3 nlsat); exhaustive small-scope operation sequences",
+   ref="6/C13"),
+ "C15": dict(
+   text="Symbolic execution of interp::lagrange / hermite with seeded concrete nodes (1..6, separation >= 0.2, permuted) and symbolic values, derivatives and zeroing tolerance: on every feasible path (each 'coefficient below tolerance' branch is a fork) z3 proves the degree bound and reproduction of values/derivatives; with data sampled from a symbolic polynomial it proves recovery of its coefficients and independence of the point order; symbolic nodes for n=2, complex nodes n=3, mismatched lengths give Err.",
+   note="Real arithmetic; nodes concrete from a seeded family (VERIF_SEED); hermite n=3 uniqueness only in the thorough tier.",
+   tech="symbolic execution at a term-building scalar + SMT (z3 simplex/nlsat)",
+   ref="6/C15"),
+ "C16": dict(
+   text="Symbolic execution of spline_free / spline_clamped and CubicSpline::evaluate(_derivative) with seeded concrete knots (2..12, thorough ..40) and symbolic ordinates and end slopes: z3 proves interpolation at every knot, continuity of value, first and second derivative at every interior knot (one-sided limits recovered exactly from samples inside each cubic piece), the end conditions (zero second derivative / prescribed slopes), reproduction of symbolic cubics (clamped) and lines (free), and the Err cases including a symbolic knot order.",
+   note="Real arithmetic; knots concrete from a seeded family; uniqueness is implied by the proved spline conditions (the C2 + end-condition system has a unique solution).",
+   tech="symbolic execution at a term-building scalar + SMT (z3 simplex over exact affine forms)",
+   ref="6/C16"),
+ "C18": dict(
+   text="All five constructors for every n = 0..20 over real and complex coefficient fields with the zero tolerance symbolic in [1e-14,1e-6]: every comparison against the tolerance is decided by z3, and on every feasible path the degree is n and the coefficients equal the closed-form rationals (computed harness-side in exact 128-bit rational arithmetic) within 4e-13 of the largest coefficient.",
+   note="The coefficients themselves are concrete (folded natively in IEEE arithmetic exactly as the f64 instantiation computes them); only the tolerance is symbolic.",
+   tech="symbolic execution with a symbolic tolerance + SMT-decided branches; exhaustive over n",
+   ref="6/C18"),
  "C01": dict(
    text="Bounded symbolic model checking of the real builders, IVPIterator::next and every stepper's step() instantiated at a symbolic scalar. Explicit solvers: (t0,t1,dt_min,dt_max,tol,y0) all symbolic and the right-hand side an arbitrary bounded function (uninterpreted tape), so every accept/reject/growth/clip pattern is a path whose feasibility z3 decides; implicit (BDF) solvers: seeded concrete affine problems with symbolic start, end and tolerance. Per yielded point z3 proves strict time order, containment in [t0,t1], gap <= dt_max, dimension, and for every completed run that the last point is the end time (Euler: one point per step time before the end). Complete runs on short horizons that straddle the multistep start-up boundaries, plus prefixes of unbounded runs.",
    note="Exact real arithmetic on symbolic values (the 1-ulp landing of fl(t+fl(e-t)) is outside); bounds: horizon <= H*dt_min or first K points, dt_max <= r*dt_min; z3 unsat trusted, sat replayed on native f64.",
